@@ -386,6 +386,17 @@ def run_desc(desc, d, k):
         n = len(m[1]) - 3
         return gene[m[0] - 1] == gene[m[0] + n - 1]
     shifted_deletion = any(shiftable(m) for mj, mi in copies for m in sim.copy_variants(gene, mj, mi))
+
+    # an insertion inside a repeat of its own sequence (insAAT next to AAT): reads that end inside the repeat support
+    # neither allele for the realigner, so the observed copy number is not exactly the planted one (the call is compared
+    # all the same)
+    def ins_in_repeat(m):
+        if not m[1].startswith("ins"):
+            return False
+        sq = m[1][3:]
+        n_ = len(sq)
+        return gene[m[0] + 1:m[0] + 1 + n_] == sq or gene[m[0] - n_ + 1:m[0] + 1] == sq
+    shifted_deletion = shifted_deletion or any(ins_in_repeat(m) for mj, mi in copies for m in sim.copy_variants(gene, mj, mi))
     # a planted multi-base deletion that covers the site of another catalogued variant: the model counts its carriers as
     # reference copies at that site, the reads show deleted bases there
     sites = {p for (p, o) in gene.mutations}
